@@ -137,6 +137,7 @@ class Kernel:
             guard = 0
             while not a.done and guard < 50:
                 guard += 1
+                a.kill_requested = True
                 if a.parked_in is not None:
                     a.gen += 1
                     a.resume(Killed())
